@@ -250,6 +250,20 @@ def check_totals(ck: Check, entries, calc, stats, fail, engine=None):
         elif any(v < 0 for v in shares.values()) or not close(math.fsum(shares.values()), 1.0) \
                 or list(shares) != list(skill_sums) or any(not close(shares[k], skill_sums[k] / total) for k in shares):
             fail("shares", shares=shares, total=total)
+        # a report that is read while the run goes on (a dashboard): the shares read at the end are those of a report
+        # that was read only once, however often and whenever it was read before
+        if len(entries) >= 2 and shares_v[0] == "value":
+            live = DamageShareFeature(calc)
+            cut1, cut2 = max(1, len(entries) // 3), max(2, (2 * len(entries)) // 3)
+            for i, en in enumerate(entries):
+                live.update(en)
+                if i + 1 in (cut1, cut2):
+                    py_value(live.compute)
+                    py_value(live.compute)
+            again = py_value(live.compute)
+            if again[0] != "value" or list(again[1]) != list(shares) or any(not close(again[1][k], shares[k]) for k in shares):
+                fail("shares-of-a-report-that-was-read-before", read_after_entries=[cut1, cut2],
+                     observed=again[1], expected=shares)
     # ---- dpm
     if entries and entries[-1].clock > 0:
         dpm_v = py_value(lambda: calc.calculate_dpm(entries))
